@@ -139,6 +139,11 @@ def gate_on_path(repo, canon, pc, plogic, f, fr, p, i, key, T):
                 return 'subset'
         if l.pol and l.atom.startswith('truthy(all(') and 'is_task_finished' in l.atom and any(s in l.atom for s in srcs):
             return 'all()'
+    # (b2) "the list of unfinished predecessors is empty"
+    for s in srcs:
+        unf = 'seq[elem(%s) for %s if (not Cluster.is_task_finished(elem(%s)))]' % (s, s, s)
+        if Lit('empty(%s)' % unf, True) in must or Lit('truthy(%s)' % unf, False) in must:
+            return 'all()'
     # (c) counting idiom: not (count < len(pred))
     for e in reversed(p.events[:i]):
         if e.kind != 'test':
@@ -298,36 +303,35 @@ def q3(repo, res, canon, pc, logic):
     fr = Frame(f)
     res.analysed(f, len(cached_paths(f)))
     tparam, mparam, aparam = f.params[1], f.params[2], f.params[3]
-    lp = [n for n in walk_no_nested(f.node) if isinstance(n, ast.For)]
-    ok = False
-    why = 'no loop over task.pred'
-    if lp and pc.p(lp[0].iter, fr) == '%s.pred' % tparam:
-        ok = True
-        for seg, how in iteration_segments(f, lp[0]):
-            if how != 'back':
-                ok, why = False, ('the loop over the predecessors can stop early (%s): predecessors listed after that '
-                                  'point are dropped from the transfer wait' % how)
-                continue
-            apps = [ef for e in seg for ef in effects_of_event(canon, e) if ef.kind == 'append']
-            tests = [(e.node, e.pol) for e in seg if e.kind == 'test']
-            diff = None
-            for t, pol in tests:
-                if isinstance(t, ast.Compare) and len(t.ops) == 1 and isinstance(t.ops[0], (ast.NotEq, ast.Eq)):
-                    sides = {pc.p(t.left, fr), pc.p(t.comparators[0], fr)}
-                    pm = 'unpack(%s[elem(%s.pred)])' % (aparam, tparam)
-                    if mparam in sides and pm in sides:
-                        diff = (isinstance(t.ops[0], ast.NotEq)) == pol
-            if diff is None:
-                ok, why = False, 'the loop does not compare the predecessor\'s machine with this task\'s machine'
-            elif diff and len(apps) != 1:
-                ok, why = False, 'a predecessor on a different machine is not added to the transfer list'
-            elif not diff and apps:
-                ok, why = False, 'a predecessor on the SAME machine is added to the transfer list (it must not wait)'
-            for a in apps:
-                if a.arg != 'pred_task' and 'unpack' not in pc.p(a.value, fr):
-                    pass
-        rets = [n for n in walk_no_nested(f.node) if isinstance(n, ast.Return)]
-    (res.ok if ok else res.bad)('C03.Q3', f, lp[0] if lp else None,
+    plogic = Logic(pc)
+    rets = [n for n in walk_no_nested(f.node) if isinstance(n, ast.Return) and n.value is not None]
+    ok = bool(rets)
+    why = 'nothing returned'
+    lp = rets
+    for r in rets:
+        parts = pc.seq_parts(r.value, fr)
+        if parts is None:
+            ok, why = False, 'the transfer list is not "the predecessors whose machine differs" (%s)' % short(pc.p(r.value, fr))
+            continue
+        elt, it, conds, lvars = parts
+        pair = '%s[elem(%s.pred)]' % (aparam, tparam)
+        E = pc.p(elt, fr)
+        src = pc._iter_p(it, fr, 0, frozenset())
+        if src not in ('%s.pred' % tparam, 'seq[%s for %s.pred]' % (pair, tparam)):
+            ok, why = False, 'the transfer list is built over %s, not over all predecessors of the task' % short(src)
+        elif E != pair + '[0]':
+            ok, why = False, 'the transfer list holds %s, not the predecessor tasks' % short(E)
+        else:
+            lits = set()
+            for c_, pol in conds:
+                lits |= plogic.must(c_, fr, pol)
+            a_, b_ = sorted([pair + '[1]', mparam])
+            want = Lit('%s == %s' % (a_, b_), False)
+            if lits != {want}:
+                ok, why = False, ('a predecessor is put on the transfer list under %s, not exactly when it ran on a '
+                                  'different machine: same-machine predecessors wait, or cross-machine ones do not' % (
+                                      sorted(map(repr, lits)) or 'no condition'))
+    (res.ok if ok else res.bad)('C03.Q3', f, rets[0] if rets else None,
                                 'cross-machine predecessors (and only those) are collected', 'ok' if ok else why)
     # (2) passed on: scheduler -> cluster -> do_work
     s = repo.func('Scheduler._process_current_schedule')
@@ -379,11 +383,9 @@ def q3(repo, res, canon, pc, logic):
             if e.kind == 'stmt':
                 for y in ast.walk(e.node):
                     if isinstance(y, ast.Yield) and isinstance(y.value, ast.Call) and call_name(y.value) == 'timeout' \
-                            and y.value.args and isinstance(y.value.args[0], ast.Call) and \
-                            call_name(y.value.args[0]) == '_wait_for_transfer':
-                        wa = bound_args(repo, 'Task._wait_for_transfer', y.value.args[0], dfr)
-                        if pc.p(wa.get('machine'), dfr) == d.params[2] and pc.p(
-                                wa.get('predecessor_allocations'), dfr) == pparam:
+                            and y.value.args:
+                        wp_ = pc.p(y.value.args[0], dfr)
+                        if wp_ == 'Task._wait_for_transfer(%s, %s, %s)' % (d.params[1], d.params[2], pparam):
                             waited = True
                 n = e.node
                 if isinstance(n, ast.Assign) and canon.c(n.targets[0], dfr) == 'Task.ast':
@@ -409,7 +411,10 @@ def q3(repo, res, canon, pc, logic):
             pv, pv, w.params[2], w.params[1]), mode='eval').body, wfr)
         mx = None
         ok = True
-        assigns = [n for n in ast.walk(lp[0]) if isinstance(n, ast.Assign) and isinstance(n.targets[0], ast.Name)]
+        rets0 = [n for n in walk_no_nested(w.node) if isinstance(n, ast.Return) and isinstance(n.value, ast.Name)]
+        retname = rets0[0].value.id if rets0 else None
+        assigns = [n for n in ast.walk(lp[0]) if isinstance(n, ast.Assign) and isinstance(n.targets[0], ast.Name)
+                   and n.targets[0].id == retname]
         tests = [n for n in ast.walk(lp[0]) if isinstance(n, ast.If)]
         upd = [a for a in assigns if affine(pc, a.value, wfr) == want]
         if not upd:
